@@ -82,7 +82,9 @@ def gen_case(rng, k):
     nT = int(rng.integers(2, 9))
     nP = int(rng.integers(2, 9))
     tg = np.sort(rng.choice(np.arange(50, 4000, 7.0), size=nT, replace=False)) + rng.random() * 3
-    pg = 10 ** np.sort(rng.choice(np.linspace(-3, 7.5, 64), size=nP, replace=False))
+    # pressures in Pa; quota: a table that reaches down to extremely low pressures (1e-9 Pa), queried there
+    plo, phi = (-3.0, 7.5) if rng.random() < 0.75 else (-9.0, 3.0)
+    pg = 10 ** np.sort(rng.choice(np.linspace(plo, phi, 64), size=nP, replace=False))
     mode = 'linear' if rng.random() < 0.5 else 'exp'
     nwn = int(rng.integers(1, 7))
     ng = 0 if rng.random() < 0.6 else int(rng.integers(1, 5))
